@@ -199,6 +199,18 @@ fn check_parse<C: Oracle>(rep: &mut Report, got: Result<Seq<C>, ParseBioError>, 
             let canon: Vec<u8> = rows.iter().map(|&r| C::entry(r).ch).collect();
             rep.expect(d.as_bytes() == &canon[..], "C01 display shows the symbols' characters", || format!("{} {} via {} displayed {:?}", C::NAME, show(bytes), entry, d));
             rep.expect(String::from(&*s) == d && String::from(s.clone()) == d && format!("{}", &*s) == d, "C01 String::from / Display agree", || format!("{} {}", C::NAME, show(bytes)));
+            // Display through a format spec with width / precision / alignment: the symbols stay contiguous and in order - the
+            // result is the plain text, or the plain text padded / truncated AS A WHOLE (both conventions are accepted; padding
+            // or truncating each symbol separately is not the same symbols)
+            if !d.is_empty() && d.len() <= 40 {
+                let w = d.len() + 3;
+                let whole = |t: &str| t == d || (t.len() == w && t.trim_matches(' ') == d) || (t.len() == w && t.trim_matches('*') == d);
+                let f1 = format!("{:<w$}", &*s, w = w);
+                let f2 = format!("{:>w$}", s, w = w);
+                let f3 = format!("{:*^w$}", &*s, w = w);
+                let f4 = format!("{:.1}", s);
+                rep.expect(whole(&f1) && whole(&f2) && whole(&f3) && (f4 == d || f4 == d[..1]), "C01 display shows the symbols' characters", || format!("{} {} with a width / precision spec: {:?} {:?} {:?} {:?}", C::NAME, show(bytes), f1, f2, f3, f4));
+            }
             match Seq::<C>::try_from(d.as_str()) {
                 Ok(s2) => rep.expect(s2 == s && s2.to_string() == d, "C01 display -> parse -> display is the identity", || format!("{} {}", C::NAME, show(bytes))),
                 Err(_) => rep.expect(false, "C01 displayed text parses back", || format!("{} {}", C::NAME, show(bytes))),
@@ -1400,6 +1412,15 @@ fn c13(_tier: &str, seed: u64) -> Report {
             let wantc: String = (skipn..n / 3).map(|i| ncbi_amino(code(3 * i)) as char).collect();
             let wantw: String = (skipn..n - 2).map(|i| ncbi_amino(code(i)) as char).collect();
             rep.expect(rest.to_string() == wantc && viaw == wantw, "C13 translating the rest of a partially consumed windows / chunks iterator gives the remaining triplets", || format!("after {} x next() of {}", skipn, s));
+        }
+        // last() / count() on lengths that are not a multiple of three: the last chunk is the last IN-FRAME triplet
+        for cut in 0..3usize {
+            let sub = &s[..n - cut];
+            let m = n - cut;
+            let lastc = sub.chunks(3).last().map(|c| STANDARD.to_amino(c).to_char());
+            let lastw = sub.windows(3).last().map(|c| STANDARD.to_amino(c).to_char());
+            rep.expect(lastc == Some(ncbi_amino(code(3 * (m / 3 - 1))) as char) && lastw == Some(ncbi_amino(code(m - 3)) as char) && sub.chunks(3).count() == m / 3 && sub.windows(3).count() == m - 2,
+                "C13 the last chunk / window reached by last() is the last in-frame triplet", || format!("len {} of {}", m, s));
         }
         for k in [0usize, 1, 2, 7, n / 3 - 1, n / 3, n - 3, n - 2] {
             let a = s.windows(3).nth(k).map(|c| STANDARD.to_amino(c).to_char());
